@@ -29,7 +29,8 @@ REGISTRY = dict(
          "dump on every case). Theorems assume wf (no node shape the earlier stages exclude; evaluated on every dump) and "
          "well_scoped (a moved variable is bound by an enclosing definition; the checker panics otherwise). The semantics is "
          "textual (each body analysed once at its definition), as the checker's. Twelve defects found with this check were "
-         "repaired (known/C23.json); their witnesses are in corpus/C23.",
+         "repaired (known/C23.json); their witnesses are in corpus/C23. Known finding (class Known_C23): an argument for a generic "
+         "parameter is moved when the call-site type happens to be instantiated with a mutable type.",
     technique="Coq proof over hand model + in-process correspondence (extracted model on the dumped HIR vs real checker) + extracted Spec judge",
     design="DESIGN.md §4 C23")
 
@@ -90,6 +91,9 @@ METHOD_SIGS = {
     "mo!": SIG([P("self", KREF), P("a", KMUT), P("b", KREF)], method=1),
     "push!": SIG([P("self", KMUT), P("elem", KIMM)], method=1),
 }
+
+
+GENERIC = ["gen!"]            # subroutines of the prelude declared with a generic parameter (class Known_C23)
 
 
 def is_mut_name(n):
@@ -370,8 +374,13 @@ def patch(e, stats):
         if want is not None:
             w = [want[0], want[1]] + [[[[enc(p[0][0])] if p[0] else [], p[1]] for p in part] for part in want[2:]]
             if canon_sig(sg) != canon_sig(w):
-                stats["sig"] = stats.get("sig", 0) + 1
-                stats.setdefault("sig_example", [sxs(attr[0]) if attr else sxs(callee[2]), canon_sig(sg), canon_sig(w)])
+                cname = sxs(attr[0]) if attr else sxs(callee[2])
+                if cname in GENERIC and [[n for n, _k in part] for part in canon_sig(sg)[2:]] == [[n for n, _k in part] for part in canon_sig(w)[2:]]:
+                    # the call-site type of a generic subroutine was instantiated (known finding generic-instantiated)
+                    stats["generic_instantiated"] = stats.get("generic_instantiated", 0) + 1
+                else:
+                    stats["sig"] = stats.get("sig", 0) + 1
+                    stats.setdefault("sig_example", [cname, canon_sig(sg), canon_sig(w)])
             sg = w
         return [3, e[1], patch(callee, stats), attr, sg, patch(e[5], stats), patch(e[6], stats),
                 [[kw[0], patch(kw[1], stats)] for kw in e[7]], patch(e[8], stats)]
@@ -411,7 +420,8 @@ def canon_impl(r):
     """('ok', [(name, loc, moved_line, caused_by)]) | ('panic', msg) | ('invalid', n)"""
     st = r[0]
     if st in (-999, -997):
-        return ("harness", sxs(r[1]) if st == -999 and len(r) > 1 else str(r))
+        # a panic / abort before the ownership checker started (lexing, parsing, lowering, effect check): not this property's stage
+        return ("invalid", "earlier stage crashed: " + (sxs(r[1]) if st == -999 and len(r) > 1 else str(r)))
     if st in (0, 1):
         return ("ok", [(sxs(e[2]), e[1], e[3], sxs(e[4])) for e in r[1] if e[0] == MOVE_ERROR] +
                 [("?kind%d" % e[0], e[1], e[3], sxs(e[4])) for e in r[1] if e[0] != MOVE_ERROR])
@@ -462,7 +472,7 @@ def evaluate(ctx, h, model, cases):
         mcases.append([0, name, hir])
         ph = patch(hir, res["facts"]) if c.patch else hir
         rep = [[enc(n), loc] for (n, loc, _ln, _by) in ci[1]] if ci[0] == "ok" else []
-        jcases.append([1, ph, rep])
+        jcases.append([1, ph, rep, [enc(g) for g in GENERIC]])
         idx.append(k)
     out = model.run(mcases + jcases) if mcases else []
     mres, jres = out[:len(mcases)], out[len(mcases):]
@@ -475,7 +485,7 @@ def evaluate(ctx, h, model, cases):
         uams = [(sxs(u[0]), u[1], loc_line(u[2])) for u in j[3]]
         if res["impl"][0] == "panic":
             verdict = 3 if ws else 0
-        res["judge"] = {"verdict": verdict, "wf": wf, "well_scoped": ws, "uams": uams}
+        res["judge"] = {"verdict": verdict, "wf": wf, "well_scoped": ws, "uams": uams, "known_class": j[4] if len(j) > 4 else 0}
     return results
 
 
@@ -592,19 +602,22 @@ def report(ctx, proof, h, model, results):
     n_corr = n_facts = n_invalid = n_outside = n_spec = 0
     first_corr = first_facts = first_spec = None
     viol = []
+    known = {k["class"]: k for k in ctx.known() if "class" in k}
     for r in results:
         c = r["case"]
         ctx.count("kind:" + c.kind)
         st = r["status"]
         ctx.count("status:%s" % {0: "accepted", 1: "move errors", 2: "lowering/effect check failed", 3: "syntax error",
-                                 4: "ownership checker panicked"}.get(st, "harness/%s" % st))
+                                 4: "ownership checker panicked"}.get(st, "earlier stage crashed"))
         j = r["judge"]
         ok = j is not None and j["wf"] == 1 and j["well_scoped"] == 1
         ctx.case(c.src, nontrivial=ok, sample={"src": c.src[len(PREAMBLE):]} if c.kind == "gen" and st == 1 else None)
         if j is None:
             n_invalid += 1
-            if r["impl"][0] == "harness":
-                viol.append((r, {"verdict": "harness"}, "the harness crashed: %s" % r["impl"][1][:200]))
+            if isinstance(r["impl"][1], str) and r["impl"][1].startswith("earlier stage crashed"):
+                ctx.count("status:an earlier stage crashed (not analysed)")
+                if len(ctx.notes) < 3:
+                    ctx.notes.append("lowering crashed (outside C23): %s on\n%s" % (r["impl"][1][:120], c.src[len(PREAMBLE):][:1500]))
             continue
         ctx.count("uses-after-move per program: %s" % min(len(j["uams"]), 3))
         if not ok:
@@ -613,7 +626,9 @@ def report(ctx, proof, h, model, results):
         if r["corr"]:
             n_corr += 1
             first_corr = first_corr or {"src": c.src, "detail": r["corr"]}
-        if r["facts"]:
+        if r["facts"].get("generic_instantiated"):
+            ctx.count("call-site type of a generic subroutine instantiated")
+        if r["facts"].get("is_mut") or r["facts"].get("sig"):
             n_facts += 1
             first_facts = first_facts or {"src": c.src, "detail": r["facts"]}
         exp = getattr(c, "expect_uam", None)
@@ -621,7 +636,11 @@ def report(ctx, proof, h, model, results):
             n_spec += 1
             first_spec = first_spec or {"src": c.src, "detail": {"label": c.label, "statement says use-after-move": exp, "Spec": j["uams"]}}
         if j["verdict"] != 0 and (ok or j["verdict"] == 3):
-            viol.append((r, j, VERDICT[j["verdict"]]))
+            if j["verdict"] == 2 and j["known_class"] == 1 and r["facts"].get("generic_instantiated") and "Known_C23" in known:
+                ctx.count("known-class observations")
+                ctx.known_finding(known["Known_C23"])
+            else:
+                viol.append((r, j, VERDICT[j["verdict"]]))
     ctx.cov["not_analysed"] = n_invalid
     ctx.cov["outside_assumptions"] = n_outside
     ctx.cov["type_fact_mismatches"] = n_facts
@@ -659,7 +678,8 @@ def shrink_source(ctx, h, model, c, j):
     """drop statement groups while the same verdict persists"""
     def fails(sub):
         r = evaluate(ctx, h, model, [Case(render(sub), "shrink", sub)])[0]
-        return r["judge"] is not None and r["judge"]["verdict"] == j["verdict"] and r["judge"]["wf"] == 1
+        return (r["judge"] is not None and r["judge"]["verdict"] == j["verdict"] and r["judge"]["wf"] == 1 and
+                not (j["verdict"] == 2 and r["facts"].get("generic_instantiated")))
     try:
         small = shrink_list(c.groups, fails, budget=60) if len(c.groups) > 1 else c.groups
         return render(small)
@@ -681,5 +701,8 @@ def replay(ctx, path):
         print("judge : the ownership checker did not run (status %s)" % res["status"])
         return
     print("judge : uses-after-move %s wf=%s well_scoped=%s -> %s" % (j["uams"], j["wf"], j["well_scoped"], VERDICT.get(j["verdict"], j["verdict"])))
-    if j["verdict"] != 0:
+    known = {k["class"]: k for k in ctx.known() if "class" in k}
+    if j["verdict"] == 2 and j["known_class"] == 1 and res["facts"].get("generic_instantiated") and "Known_C23" in known:
+        ctx.known_finding(known["Known_C23"])
+    elif j["verdict"] != 0:
         ctx.violation("failing-input", VERDICT[j["verdict"]], case={"src": src}, impl=res["impl"], model=res["model"], judge=j)
